@@ -201,6 +201,14 @@ int s2t_next(sqfs_dir_iterator_t *it, sqfs_dir_entry_t **out)
 		g_bad += 1;
 	if (!g_live[obj_index(it) == O_HL ? O_HL : O_IT])
 		g_bad += 1;
+	/* C04: the archive is written from the hard link filter stacked ON TOP of
+	 * the tar-compat iterator (which strips --subdir prefixes and applies
+	 * --root-becomes): the link targets the filter hands out are then names
+	 * the archive really contains. The other way round the targets are raw
+	 * image paths while every member name is rewritten (seed C04-8). With
+	 * --no-hard-links there is no filter. */
+	VERIF_ASSERT(obj_index(it) == (no_links ? O_IT : O_HL),
+		     "C04.s2t.main.hl_filter_outermost");
 	*out = NULL;
 	r = fail_or_ok("next.fail");
 	if (r)
